@@ -62,6 +62,7 @@ pub fn gen_flow_function(r: &mut Rng, fo: &FlowOpts) -> FlowCase {
     o.branches = false;
     o.unreachable = r.below(100) < fo.unreachable_pct;
     o.div = false;
+    o.addresses = false;
     let with_intr = r.below(100) < fo.intrinsics_pct;
     let with_branch = r.below(100) < fo.branches_pct;
     let mut f = gen_function(r, &o, 0x1000);
@@ -133,26 +134,44 @@ pub fn reachable_blocks(f: &Function) -> BTreeSet<usize> {
     seen
 }
 
-/// one random initial scalar environment (every pool scalar defined), as a Gallina `senv`
-pub fn gen_env(r: &mut Rng, pool: &[(String, usize)], it: &mut Interner) -> String {
+/// scalar pool as Gallina `list (N * Z)` and one random value vector over it (every pool scalar defined)
+pub fn coq_pool(pool: &[(String, usize)], it: &mut Interner) -> String {
+    coq_list(pool.iter().map(|s| format!("({}, {})", n_lit(it.id(&s.0)), s.1)).collect::<Vec<_>>())
+}
+pub fn gen_vals(r: &mut Rng, pool: &[(String, usize)]) -> String {
     coq_list(pool.iter().map(|s| {
         let v = match r.below(6) { 0 => 0u64, 1 => 1, 2 => 2, 3 => 3, 4 => u64::MAX, _ => r.next() };
         let v = if s.1 >= 64 { v } else { v & ((1u64 << s.1) - 1) };
-        format!("(({}, None), mkc {} {})", n_lit(it.id(&s.0)), s.1, v)
+        format!("{}", v)
     }).collect::<Vec<_>>())
 }
-pub fn gen_arena(r: &mut Rng) -> String {
-    coq_list((0..ARENA_LEN).map(|i| format!("({}, {})", ARENA_LO + i, r.below(256))).collect::<Vec<_>>())
-}
 
-pub fn coq_locmap(m: &HashMap<il::ProgramLocation, LocationSet>) -> String {
-    let mut v: Vec<(il::FunctionLocation, Vec<il::FunctionLocation>)> = m.iter().map(|(k, s)| {
-        let mut l: Vec<il::FunctionLocation> = s.locations().iter().map(|p| p.function_location().clone()).collect();
-        l.sort();
-        (k.function_location().clone(), l)
-    }).collect();
-    v.sort();
-    coq_list(v.iter().map(|(k, s)| format!("({}, {})", coq_floc(k), coq_list(s.iter().map(coq_floc).collect::<Vec<_>>()))).collect::<Vec<_>>())
+/// result map in the compact encoding of Flow/C12Check.v: masks over Function::locations, -1 = absent.
+/// A key or element that is not a location of the function makes the encoding impossible: `None`.
+pub fn coq_locmap(f: &Function, m: &HashMap<il::ProgramLocation, LocationSet>) -> String {
+    let locs: Vec<il::FunctionLocation> = f.locations().into_iter().map(|l| l.into()).collect();
+    let idx = |l: &il::FunctionLocation| locs.iter().position(|x| x == l);
+    let mut out: Vec<String> = vec![];
+    let mut seen = 0;
+    for l in &locs {
+        let key = m.iter().find(|(k, _)| k.function_location() == l);
+        match key {
+            None => out.push("-1".into()),
+            Some((_, s)) => {
+                seen += 1;
+                let mut mask = num_bigint::BigUint::from(0u32);
+                for d in s.locations() {
+                    match idx(d.function_location()) {
+                        Some(j) => mask |= num_bigint::BigUint::from(1u32) << j,
+                        None => mask |= num_bigint::BigUint::from(1u32) << (locs.len() + 1), // rejected by decode
+                    }
+                }
+                out.push(format!("{}", mask));
+            }
+        }
+    }
+    if seen != m.len() { out.push("0".into()); } // a key outside the function: length mismatch, rejected by decode
+    coq_list(out)
 }
 
 pub fn describe(f: &Function) -> String {
